@@ -1,5 +1,8 @@
 //! C15, in-memory part: `serve_connection*` over `memstream`, one runtime thread
-//! per connection, the harness as raw tungstenite client.
+//! per connection, the harness as raw tungstenite client. The stream is adopted
+//! through `adopt_upgraded`, or (rows with a `prefix`) through
+//! `adopt_upgraded_partially_read` with the first k bytes the client pipelined
+//! handed over as the `buffered` argument and the rest left on the stream.
 
 use super::{
     Cause, Cell, ConnFacts, Ev, Outcome, Phase, Plan, SHORT_WATCHDOG, Variant, WATCHDOG, World, build_server, bump, cell_from_json, cell_json,
@@ -21,8 +24,28 @@ use tokio_tungstenite::WebSocketStream;
 use tokio_tungstenite::tungstenite::Message as WsMessage;
 use tokio_tungstenite::tungstenite::protocol::Role;
 
+/// How many of the bytes the client pipelined with the upgrade were "already read"
+/// by the embedder's HTTP stack and are handed to `adopt_upgraded_partially_read`
+/// as `buffered` (the rest arrives on the stream).
+#[derive(Clone, Copy, Debug, PartialEq, Eq, PartialOrd, Ord)]
+pub(crate) enum Prefix {
+    /// nothing (empty `buffered`)
+    K0,
+    /// the first byte of the first WebSocket frame
+    K1,
+    /// the two-byte WebSocket header of the first frame (without mask and payload)
+    K2,
+    /// exactly the first WebSocket frame
+    Frame1,
+    /// the first frame and the first half of the second one
+    Frame1Half2,
+}
+pub(crate) const PREFIXES: [Prefix; 5] = [Prefix::K0, Prefix::K1, Prefix::K2, Prefix::Frame1, Prefix::Frame1Half2];
+
 #[derive(Clone, Debug)]
 pub(crate) struct MemScenario {
+    /// `Some`: adopted through `adopt_upgraded_partially_read`
+    pub prefix: Option<Prefix>,
     pub variant: Variant,
     pub conns: Vec<Cell>,
     /// all connections are children of ONE ShutdownToken (as an embedder's
@@ -36,6 +59,8 @@ impl MemScenario {
     pub(crate) fn to_json(&self) -> Value {
         json!({
             "kind": "mem",
+            "adopt": if self.prefix.is_some() { "adopt_upgraded_partially_read" } else { "adopt_upgraded" },
+            "prefix": self.prefix.map(|p| format!("{p:?}")),
             "variant": format!("{:?}", self.variant),
             "conns": self.conns.iter().map(cell_json).collect::<Vec<_>>(),
             "shared_token": self.shared_token,
@@ -43,7 +68,12 @@ impl MemScenario {
         })
     }
     pub(crate) fn from_json(v: &Value) -> Result<MemScenario, String> {
+        let prefix = match v.get("prefix").and_then(|p| p.as_str()) {
+            None => None,
+            Some(p) => Some(PREFIXES.iter().copied().find(|x| format!("{x:?}") == p).ok_or("prefix")?),
+        };
         Ok(MemScenario {
+            prefix,
             variant: variant_from_json(&v["variant"])?,
             conns: v["conns"].as_array().ok_or("conns")?.iter().map(cell_from_json).collect::<Result<Vec<_>, _>>()?,
             shared_token: v["shared_token"].as_bool().unwrap_or(false),
@@ -74,6 +104,11 @@ pub(crate) async fn next_msg<S: AsyncRead + AsyncWrite + Unpin>(ws: &mut WebSock
 
 pub(crate) fn request(id: u64, path: &str, n: u64) -> WsMessage {
     WsMessage::Binary(Frame::request(id, path, format!("{{\"n\":{n}}}").as_bytes(), 2, false).to_bytes())
+}
+
+/// A request whose body carries `pad` filler bytes (a frame of a few hundred bytes).
+pub(crate) fn padded_request(id: u64, path: &str, n: u64, pad: usize) -> WsMessage {
+    WsMessage::Binary(Frame::request(id, path, format!("{{\"n\":{n},\"pad\":\"{}\"}}", "x".repeat(pad)).as_bytes(), 2, false).to_bytes())
 }
 
 /// The frame the client sends for a client-side exit cause (None: not a frame).
@@ -153,23 +188,55 @@ impl Run<'_> {
         // time, and pipelines its first request(s) with the upgrade (legal, and the
         // case in which a response could overtake the connect hooks' notifies).
         let mut client = WebSocketStream::from_raw_socket(client_end, Role::Client, None).await;
-        let pipelined: Vec<u64> = match plan.phase {
-            Phase::Idle | Phase::Inline | Phase::Off => vec![1],
-            Phase::Outbound => vec![10, 11, 12],
-            Phase::Connect => vec![],
+        // (partially-read rows: at least two frames, so that the prefix can end inside the
+        // second one; while the connect hook is parked they are Pings, which no handler sees)
+        let partial = self.sc.prefix;
+        let pipelined: Vec<WsMessage> = match (plan.phase, partial.is_some()) {
+            // (preceded by a request the reader rejects by itself — unknown path, no handler runs: its error
+            // response is a response like any other and must not overtake the connect hooks' notifies either)
+            (Phase::Idle | Phase::Inline | Phase::Off, false) => vec![request(6, "/no/such/method", 6), request(1, "/probe", 1)],
+            (Phase::Idle | Phase::Inline | Phase::Off, true) => vec![request(1, "/probe", 1), padded_request(5, "/probe", 5, 200)],
+            (Phase::Outbound, _) => vec![request(6, "/no/such/method", 6), request(10, "/probe", 10), request(11, "/probe", 11), request(12, "/probe", 12)],
+            (Phase::Connect, false) => vec![],
+            (Phase::Connect, true) => vec![WsMessage::Ping(b"c15-first".to_vec()), WsMessage::Ping(b"c15-second".to_vec())],
         };
-        // ... preceded by a request the reader rejects by itself (unknown path: no handler runs); its error
-        // response is a response like any other and must not overtake the connect hooks' notifies either
-        if !pipelined.is_empty() {
-            if let Err(e) = client.send(request(5, "/no/such/method", 5)).await {
+        // byte offset on the client->server pipe after each pipelined frame
+        let mut marks: Vec<usize> = Vec::new();
+        for m in pipelined {
+            if let Err(e) = client.send(m).await {
                 self.stuck(idx, &format!("pipelined request could not be written: {e}"));
             }
+            marks.push(ctl.b_to_a.written_total() as usize);
         }
-        for n in pipelined {
-            if let Err(e) = client.send(request(n, "/probe", n)).await {
-                self.stuck(idx, &format!("pipelined request could not be written: {e}"));
+        // what the embedder's HTTP stack "already read" past the upgrade request
+        let buffered: Option<Vec<u8>> = match partial {
+            None => None,
+            Some(p) => {
+                let all = ctl.b_to_a.take();
+                let f1 = marks.first().copied().unwrap_or(0);
+                let f2 = marks.get(1).copied().unwrap_or(f1);
+                let k = match p {
+                    Prefix::K0 => 0,
+                    Prefix::K1 => 1,
+                    Prefix::K2 => 2,
+                    Prefix::Frame1 => f1,
+                    Prefix::Frame1Half2 => f1 + ((f2 - f1) / 2).max(1),
+                };
+                if marks.len() < 2 || marks.last().copied() != Some(all.len()) || k > all.len() || (p == Prefix::Frame1Half2 && k >= f2) {
+                    self.stuck(idx, &format!("pipelined bytes do not have the expected layout: marks {marks:?}, {} bytes on the pipe, k={k}", all.len()));
+                }
+                let k = k.min(all.len());
+                ctl.b_to_a.push(&all[k..]);
+                self.out.counters.partial_adoptions += 1;
+                self.out.counters.partial_bytes_handed_over += k as u64;
+                self.out.counters.partial_bytes_left_on_stream += (all.len() - k) as u64;
+                bump(&mut self.out.counters.partial_prefix, format!("{p:?}"));
+                if k > 0 && k != f1 {
+                    self.out.counters.partial_prefix_ends_inside_a_frame += 1;
+                }
+                Some(all[..k].to_vec())
             }
-        }
+        };
         if plan.cause == Cause::ConnPanic1 {
             self.w.push(Ev::Ending { conn: idx });
         }
@@ -186,7 +253,10 @@ impl Run<'_> {
                 .spawn(move || {
                     let rt = tokio::runtime::Builder::new_current_thread().enable_time().build().expect("runtime");
                     let res = rt.block_on(async {
-                        let ws = shared.adopt_upgraded(server_end).await;
+                        let ws = match buffered {
+                            None => shared.adopt_upgraded(server_end).await,
+                            Some(b) => shared.adopt_upgraded_partially_read(server_end, b).await,
+                        };
                         let h = tokio::spawn(async move {
                             match variant {
                                 Variant::Plain => shared.serve_connection(ws).await,
@@ -281,6 +351,12 @@ impl Run<'_> {
                 // (request 1 was pipelined before the server started)
                 if !self.read_until_response(&mut c, 1).await {
                     self.stuck(idx, "no response to the first request");
+                    return c;
+                }
+                // (partially-read rows pipelined a second request; it is answered before
+                // the connection is taken further, so nothing of it races the exit cause)
+                if self.sc.prefix.is_some() && !self.read_until_response(&mut c, 5).await {
+                    self.stuck(idx, "no response to the second pipelined request");
                     return c;
                 }
                 if plan.phase == Phase::Inline {
@@ -482,9 +558,13 @@ pub(crate) fn run(sc: &MemScenario) -> Outcome {
     let shared = build_server(&w).into_shared();
     out.counters.scenarios += 1;
     out.counters.connections += n as u64;
+    let via = match sc.prefix {
+        None => format!("mem:{:?}", sc.variant),
+        Some(_) => format!("mem:adopt_upgraded_partially_read:{:?}", sc.variant),
+    };
     for c in &sc.conns {
         bump(&mut out.counters.cells, format!("{:?}x{:?}", c.cause, c.phase));
-        bump(&mut out.counters.via, format!("mem:{:?}", sc.variant));
+        bump(&mut out.counters.via, via.clone());
     }
     let shared_end = sc.shared_token && sc.conns.iter().any(|c| matches!(c.cause, Cause::Cancel | Cause::Drain));
     let rt = tokio::runtime::Builder::new_current_thread().enable_time().build().expect("runtime");
@@ -527,7 +607,7 @@ pub(crate) fn run(sc: &MemScenario) -> Outcome {
             accepted: true,
             has_handshake: sc.variant.has_handshake(),
             wire: c.wire.clone(),
-            via: format!("mem:{:?}{}", sc.variant, if sc.shared_token { "+shared-token" } else { "" }),
+            via: format!("{via}{}", if sc.shared_token { "+shared-token" } else { "" }),
         })
         .collect();
     evaluate(&w, &facts, shared_end, &mut out);
